@@ -5,7 +5,6 @@ import (
 	"os"
 	"slices"
 	"sort"
-	"strings"
 	"sync"
 
 	"github.com/NethermindEth/juno/db"
@@ -162,7 +161,10 @@ func (d *Database) NewIterator(prefix []byte, withUpperBound bool) (db.Iterator,
 	)
 
 	for k := range d.db {
-		if strings.HasPrefix(k, pr) && (!withUpperBound || k < ub) {
+		// Same bounds as the pebble backends: prefix is the (inclusive) lower bound, and the
+		// upper bound is only applied when requested and when one exists (UpperBound returns
+		// nil for an empty or all-0xff prefix, which means "no upper bound").
+		if k >= pr && (upperBound == nil || k < ub) {
 			keys = append(keys, k)
 		}
 	}
